@@ -11,14 +11,15 @@ func (p *Primary) GetReplicaInfo() []ReplicationNodeInfo {
 
 	// Convert replica sessions to ReplicationNodeInfo
 	for _, session := range p.sessions {
-		if !session.Connected {
+		connected, active, lastAck, _ := session.snapshot()
+		if !connected {
 			continue
 		}
 
 		replica := ReplicationNodeInfo{
 			Address:      session.ListenerAddress, // Use actual listener address
-			LastSequence: session.LastAckSequence,
-			Available:    session.Active,
+			LastSequence: lastAck,
+			Available:    active,
 			Region:       "",
 			Meta:         map[string]string{},
 		}
